@@ -3,6 +3,7 @@
    are inputs of the state machine. *)
 From ICG Require Import Prelude Bits Table Bounds GameOps FoldLemmas SASound SAKnowledge SAMKnowledge Shapley Exploit Norms Env EnvProofs GapsAlongReveals.
 From ICG Require Import RegistryTypes gen.Registry gen.RegistryLinkProps.
+From ICG Require Import Normalize NormalizeProofs ScaleProofs ShiftProofs NormalInvProofs.
 From Coq Require Import ZArith.
 
 (* After ANY sequence of reset / step / unstep calls that starts with a reset and in which every call succeeds
@@ -82,3 +83,90 @@ Example C09_trace_nontrivial :
   exists e, ev_run e0 [EReset v v; EStep 0; EStep 2; EUnstep 0] = Some e
             /\ ev_mask e = [true; true; false] /\ e_steps e = 1%Z /\ ev_done e = false.
 Proof. eexists. split; [vm_compute; reflexivity|]. vm_compute. auto. Qed.
+
+(* ---------- Affine invariance of what the agent sees (theories/NormalInvProofs.v) ----------
+   ni_affine_vals n c a v v' : forall X, bounded n X -> ev_val v' X == c * (ev_val v X + tr_add a n X)
+                               (v' is the image of the hidden game v under scaling by c and adding the additive game of a)
+   ni_normalised n v nv      : forall X, bounded n X -> ev_val nv X == nz_normal n (ev_val v) X
+                               (nv is what normalize_game leaves of a copy of v: C15.normalize_spec)
+   ni_regular n g            : ~ nz_surplus n g == 0 \/ (nz_SA n g /\ g 0 == 0)
+   ni_action o               : o is a step or an unstep *)
+
+(* the same configuration, the same actions; two hidden games, one the positive affine image of the other, each with its
+   normalised copy: whenever both runs succeed, the masks are equal and the observations are pointwise == .
+   Every computer (also the monotone approximations).  Since tr is arbitrary this covers every state along the runs. *)
+Theorem C09_observation_affine_invariant :
+  forall e c a v v' nv nv' tr e1 e2,
+    ev_wf e -> 0 < c -> ni_regular (e_n e) (ev_val v) ->
+    ni_affine_vals (e_n e) c a v v' -> ni_normalised (e_n e) v nv -> ni_normalised (e_n e) v' nv' ->
+    Forall ni_action tr ->
+    ev_run e (EReset v nv :: tr) = Some e1 -> ev_run e (EReset v' nv' :: tr) = Some e2 ->
+    ev_mask e2 = ev_mask e1 /\ Forall2 Qeq (ev_obs e1) (ev_obs e2).
+Proof. exact ni_obs_affine_invariant. Qed.
+Print Assumptions C09_observation_affine_invariant.
+
+(* superadditive computers (reference, cached), any hidden game: after the reset and after every further valid or invalid
+   action both runs raise or both succeed; then the bounds tables are in the affine relation (tr_aff_rel), the gap
+   (reward = - gap) is multiplied by sc_gfac gap c = c (exploitability, l1, l-infinity) or c * c (the squared l2 norm
+   the model carries), and mask and done flag are the same *)
+Theorem C09_reward_affine :
+  forall e c a v v' nv nv' tr,
+    ev_wf e -> tr_sa_computer (e_comp e) = true -> 0 < c -> ni_affine_vals (e_n e) c a v v' -> Forall ni_action tr ->
+    match ev_run e (EReset v nv :: tr), ev_run e (EReset v' nv' :: tr) with
+    | Some e1, Some e2 =>
+        tr_aff_rel c a (e_n e) (e_tab e1) (e_tab e2)
+        /\ sc_optq_rel (sc_gfac (e_gap e) c) (ev_gapv e1) (ev_gapv e2)
+        /\ ev_mask e2 = ev_mask e1 /\ ev_done e2 = ev_done e1
+    | None, None => True
+    | _, _ => False
+    end.
+Proof. exact ni_reward_affine. Qed.
+Print Assumptions C09_reward_affine.
+
+(* both together: everything step() returns to the agent *)
+Theorem C09_agent_view_affine :
+  forall e c a v v' nv nv' tr,
+    ev_wf e -> tr_sa_computer (e_comp e) = true -> 0 < c -> ni_regular (e_n e) (ev_val v) ->
+    ni_affine_vals (e_n e) c a v v' -> ni_normalised (e_n e) v nv -> ni_normalised (e_n e) v' nv' ->
+    Forall ni_action tr ->
+    match ev_run e (EReset v nv :: tr), ev_run e (EReset v' nv' :: tr) with
+    | Some e1, Some e2 =>
+        Forall2 Qeq (ev_obs e1) (ev_obs e2) /\ ev_mask e2 = ev_mask e1 /\ ev_done e2 = ev_done e1
+        /\ sc_optq_rel (sc_gfac (e_gap e) c) (ev_gapv e1) (ev_gapv e2)
+    | None, None => True
+    | _, _ => False
+    end.
+Proof. exact ni_agent_view_affine. Qed.
+Print Assumptions C09_agent_view_affine.
+
+(* Example: 3 players, singletons initially known, hidden game v = (0; 1; 1; 3; 1; 2; 4; 9) and its image under
+   c = 1/1024, a = (2; -1; 1/2); after revealing {0,1} and {1,2}: the same observation (1/6; 0; 1/3) and mask,
+   exploitability 2 and 2/1024, squared l2 gap (reference computer) 36 and 36/1024^2 *)
+Definition ex_ni_v : list Q := [0; 1; 1; 3; 1; 2; 4; 9].
+Definition ex_ni_a : nat -> Q := tr_vec [2; -(1); 1#2].
+Definition ex_ni_v' : list Q := ni_image_list 3 (1#1024) ex_ni_a ex_ni_v.
+Definition ex_ni_show (o : option env) : option (list Q * list bool * bool * option Q) :=
+  option_map (fun e => (map Qred (ev_obs e), ev_mask e, ev_done e, ev_gapv e)) o.
+
+Example C09_affine_invariant_nontrivial :
+  let e0 := ev_make 3 CCached GExploit None [1; 2; 4]%N in
+  let e0' := ev_make 3 CRef GL2 None [1; 2; 4]%N in
+  let nv := ni_normal_list 3 ex_ni_v in
+  let nv' := ni_normal_list 3 ex_ni_v' in
+  let tr := [EStep 0; EStep 2] in
+  ev_wf e0 /\ 0 < 1#1024 /\ ni_regular 3 (ev_val ex_ni_v) /\ ni_affine_vals 3 (1#1024) ex_ni_a ex_ni_v ex_ni_v'
+  /\ ni_normalised 3 ex_ni_v nv /\ ni_normalised 3 ex_ni_v' nv' /\ Forall ni_action tr
+  /\ ex_ni_v' = [0; 3#1024; 0; 1#256; 3#2048; 9#2048; 7#2048; 21#2048]
+  /\ ex_ni_show (ev_run e0 (EReset ex_ni_v nv :: tr)) = Some ([1#6; 0; 1#3], [false; true; false], false, Some 2)
+  /\ ex_ni_show (ev_run e0 (EReset ex_ni_v' nv' :: tr)) = Some ([1#6; 0; 1#3], [false; true; false], false, Some (1#512))
+  /\ ex_ni_show (ev_run e0' (EReset ex_ni_v nv :: tr)) = Some ([1#6; 0; 1#3], [false; true; false], false, Some 36)
+  /\ ex_ni_show (ev_run e0' (EReset ex_ni_v' nv' :: tr)) = Some ([1#6; 0; 1#3], [false; true; false], false, Some (9#262144)).
+Proof.
+  cbv zeta. split; [apply ev_make_wf|]. split; [reflexivity|]. split; [left; vm_compute; intro H; discriminate H|].
+  split; [apply ni_affine_vals_check_sound; vm_compute; reflexivity|].
+  split; [apply ni_normalised_check_sound; vm_compute; reflexivity|].
+  split; [apply ni_normalised_check_sound; vm_compute; reflexivity|].
+  split; [repeat constructor|].
+  split; [vm_compute; reflexivity|]. split; [vm_compute; reflexivity|]. split; [vm_compute; reflexivity|].
+  split; vm_compute; reflexivity.
+Qed.
